@@ -123,19 +123,24 @@ def walk(fn, valuation: Dict[str, bool], norm: Callable[[ast.AST], str], max_ste
             elif isinstance(a, ast.Assign) and len(a.targets) == 1 and isinstance(a.targets[0], ast.Name):
                 env[a.targets[0].id] = _fold_ifexp(_Sub(env).visit(clone(a.value)), valuation, norm)
             elif isinstance(a, ast.Assign) and len(a.targets) == 1 and isinstance(a.targets[0], ast.Tuple) and isinstance(a.value, ast.Tuple) \
-                    and len(a.targets[0].elts) == len(a.value.elts) and all(isinstance(t, ast.Name) for t in a.targets[0].elts):
+                    and len(a.targets[0].elts) == len(a.value.elts) \
+                    and all(isinstance(t, ast.Name) or (isinstance(t, ast.Attribute) and isinstance(t.value, ast.Name)) for t in a.targets[0].elts):
                 vals = [_Sub(env).visit(clone(v)) for v in a.value.elts]
                 for t, v in zip(a.targets[0].elts, vals):
-                    env[t.id] = v
+                    env[t.id if isinstance(t, ast.Name) else f"{t.value.id}.{t.attr}"] = v
             elif isinstance(a, ast.Assign) and len(a.targets) == 1 and isinstance(a.targets[0], ast.Tuple) and not isinstance(a.value, ast.Tuple) \
-                    and all(isinstance(t, ast.Name) for t in a.targets[0].elts):
-                # `x, y = call(...)` unpacks the components of one result
+                    and all(isinstance(t, ast.Name) or (isinstance(t, ast.Attribute) and isinstance(t.value, ast.Name)) for t in a.targets[0].elts):
+                # `x, y = call(...)` / `self.a, self.b = call(...)` unpacks the components of one result
                 val = _Sub(env).visit(clone(a.value))
                 for k_, t in enumerate(a.targets[0].elts):
-                    env[t.id] = ast.Subscript(value=clone(val), slice=ast.Constant(value=k_), ctx=ast.Load())
+                    key = t.id if isinstance(t, ast.Name) else f"{t.value.id}.{t.attr}"
+                    env[key] = ast.Subscript(value=clone(val), slice=ast.Constant(value=k_), ctx=ast.Load())
             elif isinstance(a, ast.AugAssign) and isinstance(a.target, ast.Name):
                 cur = env.get(a.target.id, ast.Name(id=a.target.id, ctx=ast.Load()))
                 env[a.target.id] = ast.BinOp(left=clone(cur), op=a.op, right=_Sub(env).visit(clone(a.value)))
+            elif isinstance(a, ast.Expr) and isinstance(a.value, ast.Call):
+                # a call made for its effect: remembered in order (bindings applied), for rules about which procedures run on a path
+                env.setdefault("<calls>", ast.List(elts=[], ctx=ast.Load())).elts.append(_Sub({k_: v_ for k_, v_ in env.items() if k_ != "<calls>"}).visit(clone(a.value)))
             elif isinstance(a, (ast.Expr, ast.Pass, ast.Assert)):
                 pass
             elif isinstance(a, ast.Assign) and len(a.targets) == 1 and isinstance(a.targets[0], ast.Attribute) and isinstance(a.targets[0].value, ast.Name):
